@@ -101,6 +101,29 @@ class Ctx:
                 return n
         return prog.fold(_ast.fix_missing_locations(T().visit(rec(e))), m, c)
 
+    def fold_sym(self, fn, mapping=None):
+        """A `sym` function for the evaluator: values for the expressions named in `mapping` (by normalised text), and the folded
+        value of named constants / calcsize(...) in the context of function `fn` (so `16`, `Cls.SIZE` and `calcsize('<4L')` agree)."""
+        import ast as _ast
+        from .core.report import norm as _norm
+        from .core.symtab import UNKNOWN as _UNK
+        mapping = mapping or {}
+        prog = self.prog
+
+        def sym(x):
+            t = _norm(x)
+            if t in mapping:
+                return mapping[t]
+            if isinstance(x, (_ast.Name, _ast.Attribute)) or (isinstance(x, _ast.Call) and _norm(x.func) in ("calcsize", "struct.calcsize")):
+                try:
+                    v = prog.fold(x, fn.module, fn.cls)
+                except Exception:  # noqa: BLE001
+                    v = _UNK
+                if isinstance(v, (int, str, bytes)) and not isinstance(v, bool):
+                    return v
+            return None
+        return sym
+
     def num(self, fn, e, mapping):
         """Numeric value of `e` inside function `fn` for the given values of its inputs (locals inlined, named constants folded)."""
         from .core import astutil as _A
